@@ -31,7 +31,10 @@ Step ==
     \/ A.n = "SetMassFracs" /\ SetMassFracs(A.x, A.m)
     \/ A.n = "AddMasses" /\ AddMasses(A.x, A.m)
     \/ A.n = "SetMasses" /\ SetMasses(A.x, A.m)
-    \/ A.n = "SetHeight" /\ SetHeight(A.x, A.h, A.cons)
+    \/ A.n = "SetHeight" /\ SetHeight(A.x, A.h, A.cons, AdjOf(A))
+    \/ A.n = "AdjustDensity" /\ AdjustDensity(A.x, A.f, AdjOf(A))
+    \/ A.n = "AdjustEnrich" /\ AdjustEnrich(A.x, A.f)
+    \/ A.n = "AdjustMF" /\ AdjustMF(A.x, A.adj, A.hold, A.v)
 Post == [N |-> N, H |-> HB(H), err |-> err]
 Matches == N' = NOf(Ev.post.N) /\ H' = HOf(Ev.post.H) /\ hgt' = GOf(Ev.post.hgt) /\ err' = Ev.post.err
 ObsMatch == \/ Matches
